@@ -19,7 +19,7 @@ Theorem C10_invariant :
   forall (D L P : Type) (gen : D -> L) enc decode life,
     (forall l, decode (enc l) = Some l) ->
   forall rep d0 t0 (ops : list (op D P)) sf out,
-    Forall (op_ok decode) ops -> run gen enc decode life rep (init d0 t0) ops = (sf, out) ->
+    Forall (op_ok enc decode) ops -> run gen enc decode life rep (init d0 t0) ops = (sf, out) ->
   forall b g l, file sf = Some (b, g) -> decode g = Some l ->
     b <= now sf /\ (exists d, alive (hist sf) (now sf) b d /\ l = gen d) /\
     (exists p d, In (b, d, Served p l false) out).
@@ -30,7 +30,7 @@ Theorem C10_transparent :
   forall (D L P : Type) (gen : D -> L) enc decode life,
     (forall l, decode (enc l) = Some l) ->
   forall rep d0 t0 (ops : list (op D P)) sf out,
-    Forall (op_ok decode) ops -> run gen enc decode life rep (init d0 t0) ops = (sf, out) ->
+    Forall (op_ok enc decode) ops -> run gen enc decode life rep (init d0 t0) ops = (sf, out) ->
   forall post pre t d q l, out = post ++ (t, d, Served q l true) :: pre ->
     exists p d' t', In (t', d', Served p l false) pre /\ l = gen d' /\ t' <= t /\ t - t' < ms life.
 Proof. exact transparent_all. Qed.
@@ -40,7 +40,7 @@ Theorem C10_fresh :
   forall (D L P : Type) (gen : D -> L) enc decode life,
     (forall l, decode (enc l) = Some l) ->
   forall rep d0 t0 (ops : list (op D P)) sf out,
-    Forall (op_ok decode) ops -> run gen enc decode life rep (init d0 t0) ops = (sf, out) ->
+    Forall (op_ok enc decode) ops -> run gen enc decode life rep (init d0 t0) ops = (sf, out) ->
   forall t d p l h, In (t, d, Served p l h) out ->
     exists tau d', alive (hist sf) (now sf) tau d' /\ l = gen d' /\ tau <= t /\ (t - tau < ms life \/ tau = t).
 Proof. exact fresh_all. Qed.
@@ -64,7 +64,7 @@ Theorem C10_zero :
   forall (D L P : Type) (gen : D -> L) enc decode life,
     (forall l, decode (enc l) = Some l) ->
   forall rep d0 t0 (ops : list (op D P)) sf out,
-    life <= 0 -> Forall (op_ok decode) ops -> run gen enc decode life rep (init d0 t0) ops = (sf, out) ->
+    life <= 0 -> Forall (op_ok enc decode) ops -> run gen enc decode life rep (init d0 t0) ops = (sf, out) ->
   forall t d p l h, In (t, d, Served p l h) out -> h = false /\ l = gen d.
 Proof. exact zero_all. Qed.
 Print Assumptions C10_zero.
@@ -85,5 +85,5 @@ Example C10_example :
   let ops := [List 0%N; Tick 1000; Mutate (fun d => 7%N :: d); List 1%N; Tick 1500; List 2%N] in
   map (fun e => snd e) (snd (run gen toy_enc toy_decode 2 false (init [1%N] 5000) ops)) =
     [Served 2%N [7%N; 1%N] false; Served 1%N [1%N] true; Served 0%N [1%N] false]
-  /\ Forall (op_ok toy_decode) ops.
+  /\ Forall (op_ok toy_enc toy_decode) ops.
 Proof. split; [vm_compute; reflexivity | repeat constructor; simpl; discriminate]. Qed.
